@@ -95,6 +95,10 @@ def decode_checks(chk, rnd):
     for _ in range(n):
         nums = [str(wd.gen_decimal(rnd)) for _ in range(6)]
         st = rnd.choice(sorted(statuses))
+        if rnd.random() < 0.35:
+            # executed quantity equal to the original one whatever the status says (the status is what decides open/closed:
+            # the exchange reports e.g. PENDING_CANCEL or a lagging PARTIALLY_FILLED on fully executed orders)
+            nums[1] = nums[0] if rnd.random() < 0.7 else str(Decimal(nums[0]).normalize())
         side = rnd.choice(["BUY", "SELL"])
         ts = rnd.randint(1262304000000, 4102444800000)
         trades = []
